@@ -17,6 +17,8 @@ Reading guide
 All theorems quantify over unbounded `Int` years, times and durations.
 -/
 import EPV.Lemmas.CalendarOps
+import EPV.Lemmas.CalendarMk
+import EPV.Lemmas.CalendarDuration
 namespace EPV.C11
 open EPV.Cal EPV.Timeline
 
@@ -222,6 +224,17 @@ theorem adjust_tz_components (v : DT) (tz : Option Int) (h : v.tz = none ∨ tz 
   · rw [h]
   · subst h; cases v.tz <;> rfl
 
+/-- **`adjust-date-to-timezone`** with both timezones present returns the day that contains, in the new
+timezone, the first instant of the date (offsets up to 28 hours apart, former F11j). -/
+theorem adjust_date_is_day_of_instant (v : DT) (z0 z : Int) (hv : v.Valid) (htz : v.tz = some z0)
+    (hz : -840 ≤ z ∧ z ≤ 840) (hd : AddDomain v ((z - z0) * Cal.UM) false) :
+    ∃ w, Cal.adjustDate v (some z) = .ok w ∧ w.Valid ∧ w.tz = some z ∧
+      (absV w).localC = ((absV v).localC + (z - z0) * Cal.UM) - ((absV v).localC + (z - z0) * Cal.UM) % Cal.US :=
+  adjustDate_spec v z0 z hv htz hz hd
+
+/-- test (literals): 9999-02-28-14:00 adjusted to +14:00 is 9999-03-01+14:00 (28 hours later) -/
+example : Cal.adjustDate ⟨9999, 2, 28, 0, some (-840)⟩ (some 840) = .ok ⟨9999, 3, 1, 0, some 840⟩ := by decide
+
 /-! ### ± yearMonthDuration -/
 
 /-- **adding a yearMonthDuration clamps the day to the target month**: the result is the value whose
@@ -283,6 +296,47 @@ theorem lex_year_roundtrip (v11 : Bool) (n y : Int) (h : lexYear v11 n = .ok y) 
       refine ⟨hn, trivial, trivial, ?_⟩
       repeat' split
       all_goals omega
+
+/-- **the constructor builds the value of the lexical fields** (`components_roundtrip`): for a non-zero
+year (|year| < 2^31), a real calendar date of that year and either a time of day or the form
+`24:00:00`, the stored value denotes `Timeline.ofFields` — month, day and time are the given ones, and
+`24:00:00` is the first instant of the next day, also on a 31st of December of BCE years and of years
+≥ 9999 (former F11f), with the proleptic Gregorian leap years in both eras (former F11c/F11e). -/
+theorem components_roundtrip (year m d h mi s us : Int) (tz : Option Int) (hy : year ≠ 0)
+    (hyb : year.natAbs < 2 ^ 31) (hm : 1 ≤ m ∧ m ≤ 12) (hd : 1 ≤ d ∧ d ≤ monthLen (astro year) m)
+    (ht : (0 ≤ h ∧ h ≤ 23 ∧ 0 ≤ mi ∧ mi ≤ 59 ∧ 0 ≤ s ∧ s ≤ 59 ∧ 0 ≤ us ∧ us ≤ 999999) ∨
+          (h = 24 ∧ mi = 0 ∧ s = 0 ∧ us = 0)) :
+    ∃ w, mk year m d h mi s us tz = .ok w ∧ w.year ≠ 0 ∧
+      absV w = Timeline.ofFields (astro year) m d h mi s us tz :=
+  mk_spec year m d h mi s us tz hy hyb hm hd ht
+
+/-- a month/day that does not exist in the proleptic Gregorian year is rejected (`ValueError`, FORG0001
+through XPath): e.g. 29 February of 10003, of -0004 (XSD 1.0) or of -0003 (XSD 1.1) -/
+theorem ctor_rejects_invalid_date (year m d h mi s us : Int) (tz : Option Int) (hy : year ≠ 0)
+    (hyb : year.natAbs ≤ 2 ^ 31) (hh : 0 ≤ h ∧ h ≤ 23)
+    (hbad : ¬ (1 ≤ m ∧ m ≤ 12 ∧ 1 ≤ d ∧ d ≤ monthLen (astro year) m)) :
+    mk year m d h mi s us tz = .error .value :=
+  mk_invalid_date year m d h mi s us tz hy hyb hh hbad
+
+/-- test (literals): -0001-12-31T24:00:00 (XSD 1.0: 1 BCE) is 0001-01-01T00:00:00 -/
+example : mk (-1) 12 31 24 0 0 0 none = .ok ⟨1, 1, 1, 0, none⟩ ∧ mk 10000 2 29 0 0 0 0 none = .ok ⟨10000, 2, 29, 0, none⟩ ∧
+    mk 10003 2 29 0 0 0 0 none = .error .value ∧ mk (-1) 2 29 0 0 0 0 none = .ok ⟨-1, 2, 29, 0, none⟩ := by decide
+
+/-! ### durations -/
+
+/-- `months2days(year, month, delta)` is the number of days from the 1st of `month` of `year` to the 1st of
+the month `delta` months later (earlier when negative) — every year, month 1..12 and delta. -/
+theorem months2days_is_day_count (y m δ : Int) (hm : 1 ≤ m ∧ m ≤ 12) :
+    months2days y m δ =
+      dayNum ((12 * y + (m - 1) + δ) / 12) ((12 * y + (m - 1) + δ) % 12 + 1) 1 - dayNum y m 1 := by
+  rw [months2days_eq y m δ hm, dayNum_eq_C _ _ _ (by omega) (by omega), dayNum_eq_C _ _ _ hm.1 hm.2]
+
+/-- **the order of durations is the XSD four-reference-points order** (XSD 1.1 §3.3.6.2): for every pair
+of durations (months, µs) and each of `lt le gt ge`, `Duration._compare_durations` holds exactly when
+`t + d1 op t + d2` for the four reference dateTimes 1696-09, 1697-02, 1903-03, 1903-07. -/
+theorem duration_order_four_points (op : Cmp) (m1 s1 m2 s2 : Int) :
+    Cal.durationCmp op m1 s1 m2 s2 = Timeline.durationCmp op.op m1 s1 m2 s2 :=
+  durationCmp_eq op m1 s1 m2 s2
 
 /-- XSD 1.0 has no year 0000 (`ValueError`), XSD 1.1 accepts every lexical year -/
 theorem lex_year_zero : lexYear false 0 = .error .value ∧ ∀ n : Int, ∃ y, lexYear true n = .ok y :=
